@@ -11,6 +11,7 @@ def obligations(tier):
         k_categorical.obligation(tier, {"C09"}, "O9.4 a categorical value is in the default group iff it is rarer than min_freq; NaN stays separate"),
         k_ordinal.obligation(tier, {"C09"}, "O9.1 ordinal buckets hold >= min_freq of the rows (or one bucket remains); NaN stays its own modality; min_freq symbolic in (0,0.5]"),
         k_quantiles.obligation_profile(tier, "O9.5 ContinuousDiscretizer on larger samples given by solver-chosen multiplicity profiles: boundaries, frequent values and the 2.5/q bucket bound"),
+        k_quantiles.obligation_minfreq_link(tier, "O9.6 a value holding at least min_freq of the rows is a boundary, for min_freq values whose reciprocal is an integer, rounds up, rounds down"),
         k_quantiles.obligation(tier, {"C09", "C03"}, "O9.2 ContinuousDiscretizer boundaries: strictly increasing observed values then +inf; frequent values are boundaries; bucket-size bound",
                                ["sorted", "perm"]),
     ]
